@@ -151,7 +151,7 @@ def section(chk: Check, max_tasks: int, depth: int, max_pairs: int = 4000):
             chk.nontrivial(("tasksched", e["_s"], common.skey(e["act"])))
     for bads in results:
         for b in bads:
-            chk.violation("B1 task-scheduler: %s differs from TaskScheduler specification" % ",".join(b["differs"]),
+            chk.divergence("TaskScheduler", "B1 task-scheduler: %s differs from TaskScheduler specification" % ",".join(b["differs"]),
                           {"kind": "b1-tasksched", "differs": b["differs"], "last": b["history"][-1]["n"]}, b)
     pick = [e for e in g.edges if e["act"]["n"] == "RegionChanged" and e["src"] != e["dst"]]
     if pick:
